@@ -1332,9 +1332,13 @@ class Interp:
                     return False
         return True
 
+    def truthy_in(self, c, st):
+        """truthiness that may need the state (a graph view is true iff its set is non-empty); extended by lib_nx"""
+        return self.truthy(c)
+
     def e_IfExp(self, e, st):
         for c, s1 in self.eval(e.test, st):
-            tc = z3.simplify(self.truthy(c))
+            tc = z3.simplify(self.truthy_in(c, s1))
             if z3.is_true(tc):
                 yield from self.eval(e.body, s1)
                 continue
